@@ -159,7 +159,7 @@ def rand_centers(rng, n, cls=None, scale=1.5, offset=True):
     return [[float(v) for v in p] for p in pts], "geom:" + cls
 
 
-def rand_basis(rng, ls, types=None, geom=None, emin=0.02, emax_fn=cap, Kmax=4, Mmax=3, scale=1.5, distinct_M=True):
+def rand_basis(rng, ls, types=None, geom=None, emin=0.02, emax_fn=cap, Kmax=4, Mmax=3, scale=1.5, distinct_M=True, symmetric=None):
     n = len(ls)
     centers, gcls = rand_centers(rng, n, geom, scale)
     shells = []
@@ -171,7 +171,40 @@ def rand_basis(rng, ls, types=None, geom=None, emin=0.02, emax_fn=cap, Kmax=4, M
     classes = {gcls}
     for s in shells:
         classes.update(s.pop("_cls"))
+    if symmetric is None:
+        symmetric = bool(rng.random() < 0.15)
+    if symmetric and geom is None and ((n >= 3 and ls[1] <= min(ls[2:])) or (n == 2 and ls[0] == ls[1])):
+        shells = symmetrize(rng, shells)
+        classes = {c for c in classes if not c.startswith("geom:")} | {"geom:symmetric-molecule"}
     return shells, sorted(classes)
+
+
+def symmetrize(rng, shells):
+    """Equivalent atoms: shells 2.. become copies of shell 1 (same l, exponents, coefficients; the coordinate type of each
+    position is kept half of the time) placed on the vertices of a regular polygon around shell 0 (XH2 linear, XH3, XH4
+    planar), or - for two shells of equal l - a homonuclear pair. Every real molecule has such shells; random bases never
+    do. Pairs of identical parameters at equal distance but different (also opposite) direction are what distinguishes a
+    block computed for THIS pair from one reused from an equivalent-looking pair."""
+    shells = [dict(s) for s in shells]
+    n = len(shells)
+    if n == 2:
+        shells[1] = dict(shells[0], c=shells[1]["c"], t=shells[1]["t"] if rng.random() < 0.5 else shells[0]["t"])
+        return shells
+    c0 = np.array(shells[0]["c"], dtype=float)
+    R = float(np.linalg.norm(np.array(shells[1]["c"]) - c0))
+    if not 0.5 <= R <= 4.0:
+        R = float(rng.uniform(0.8, 3.0))
+    u = rng.normal(size=3)
+    u /= np.linalg.norm(u)
+    v = np.cross(u, rng.normal(size=3))
+    v /= np.linalg.norm(v)
+    m = n - 1
+    same_t = rng.random() < 0.5
+    for k in range(m):
+        ang = 2 * np.pi * k / m
+        pos = c0 + R * (np.cos(ang) * u + np.sin(ang) * v)
+        shells[1 + k] = dict(shells[1], c=[float(x) for x in pos], t=shells[1]["t"] if same_t else shells[1 + k]["t"])
+    return shells
 
 
 def window_pair(rng, la, lb, tmin=18.0, tmax=40.0, emin=0.05, emax=60.0):
